@@ -232,3 +232,86 @@ def exhaustive16(runmod, prop, group, tier, seed, st, jobs):
     st['nontrivial'].add(core.h64('exh/%s/%s' % (prop.PROP, tier)))
     print('[%s] exhaustive16 pass: %d evaluations, %d mismatches, %.0fs' % (prop.PROP, evals, bad, time.time() - t0), flush=True)
     return {'evaluations': evals, 'mismatches': bad, 'complete_pair_space': full, 'wall_s': round(time.time() - t0, 1)}
+
+
+# ------------------------------------------------------------------ reach audit (line coverage of the property's anchor files)
+
+def coverage_audit(runmod, prop, tier, seed, st, jobs, nreq=150):
+    """Auxiliary evidence, never a verdict: which lines of the property's anchor files (properties.jsonl) the workload executed.
+    Driver rebuilt with -Cinstrument-coverage (nightly, dev), a small workload on every configuration, llvm-profdata + llvm-cov."""
+    import json
+    import glob
+    import shutil
+    t0 = time.time()
+    sysroot = subprocess.run(['rustc', '+nightly', '--print', 'sysroot'], capture_output=True, text=True).stdout.strip()
+    tools = os.path.join(sysroot, 'lib', 'rustlib', 'x86_64-unknown-linux-gnu', 'bin')
+    profdata, llvmcov = os.path.join(tools, 'llvm-profdata'), os.path.join(tools, 'llvm-cov')
+    if not (os.path.exists(profdata) and os.path.exists(llvmcov)):
+        return {'skipped': 'llvm-profdata / llvm-cov not found in the nightly sysroot'}
+    runmod.ensure_link()
+    env = runmod.cargo_env()
+    full = tier == 'thorough'
+    env['CARGO_TARGET_DIR'] = runmod.target_dir('cov' + ('-full' if full else ''))
+    env['RUSTFLAGS'] = '-Cinstrument-coverage'
+    cmd = ['cargo', '+nightly', 'build', '--offline', '--manifest-path', os.path.join(runmod.harness_dir(), 'Cargo.toml'), '--bin', prop.BIN]
+    if full:
+        cmd += ['--features', 'full']
+    p = subprocess.run(cmd, env=env, stdout=subprocess.PIPE, stderr=subprocess.STDOUT, text=True)
+    if p.returncode != 0:
+        return {'skipped': 'coverage build failed: ' + p.stdout[-400:]}
+    binpath = os.path.join(env['CARGO_TARGET_DIR'], 'debug', prop.BIN)
+    covdir = os.path.join(runmod.BUILD, 'cov-' + prop.PROP)
+    shutil.rmtree(covdir, ignore_errors=True)
+    os.makedirs(covdir)
+    procs = []
+    cfgs = prop.configs(tier)
+    for i, cname in enumerate(cfgs):
+        cfg = core.Cfg(cname)
+        rng = random.Random(core.h64('%d/%s/cov/%s' % (seed, prop.PROP, cname)))
+        reqs = []
+        for g, a in prop.requests(cfg, rng, nreq, tier, rng.randrange(1 << 20), 1 << 20, {'exhaustive': []}):
+            reqs.append(runmod.encode_req(prop, cfg, g, a))
+            if len(reqs) >= nreq:
+                break
+        if not reqs:
+            continue
+        f = os.path.join(covdir, cname + '.req')
+        open(f, 'w').write('\n'.join(reqs) + '\n')
+        e2 = dict(os.environ, LLVM_PROFILE_FILE=os.path.join(covdir, cname + '.profraw'))
+        procs.append(subprocess.Popen([binpath, '--in', f], env=e2, stdout=subprocess.DEVNULL, stderr=subprocess.DEVNULL))
+        if len(procs) >= jobs:
+            procs.pop(0).wait()
+    for p in procs:
+        p.wait()
+    raws = glob.glob(os.path.join(covdir, '*.profraw'))
+    if not raws:
+        return {'skipped': 'no profile data produced'}
+    merged = os.path.join(covdir, 'merged.profdata')
+    subprocess.run([profdata, 'merge', '-sparse', '-o', merged] + raws, check=False, capture_output=True)
+    repo = runmod.repo_path()
+    out = subprocess.run([llvmcov, 'export', '--format=text', '--summary-only', '--instr-profile', merged, binpath], capture_output=True, text=True)
+    res = {}
+    try:
+        data = json.loads(out.stdout)
+        anchors = set()
+        for l in open(os.path.join(ROOT, 'properties.jsonl')):
+            d = json.loads(l)
+            if d['id'] == prop.PROP:
+                anchors = set(d['anchors']['files'])
+        for f in data['data'][0]['files']:
+            fn = os.path.realpath(f['filename'])
+            if fn.startswith(repo + '/'):
+                rel = fn[len(repo) + 1:]
+                if rel in anchors:
+                    s = f['summary']
+                    res[rel] = {'lines': s['lines']['count'], 'lines_executed': s['lines']['covered'],
+                                'regions': s['regions']['count'], 'regions_executed': s['regions']['covered']}
+    except Exception as e:
+        return {'skipped': 'could not read llvm-cov output: %s' % e}
+    shutil.rmtree(covdir, ignore_errors=True)
+    tot = sum(v['lines'] for v in res.values()) or 1
+    hit = sum(v['lines_executed'] for v in res.values())
+    print('[%s] reach audit: %d of %d lines of the %d anchor files executed by a %d-request-per-configuration workload (%.0fs)' % (
+        prop.PROP, hit, tot, len(res), nreq, time.time() - t0), flush=True)
+    return {'note': 'auxiliary reach report (dev build, instantiations of all four digit types merged by llvm-cov); never a verdict',
+            'requests_per_configuration': nreq, 'anchor_files': res, 'lines_executed': hit, 'lines_total': tot, 'wall_s': round(time.time() - t0, 1)}
